@@ -144,11 +144,9 @@ def _run_one(args):
         ck = report.Check(Program(src), prop, "quick")
         err = None
         try:
-            ov = ck.prog.unmodelled_overrides()
-            if ov:
-                raise AnalysisError("new method override(s) in the class hierarchy are not modelled: %s" % "; ".join(ov[:3]))
-            rm.check(ck)
-            ck.finish()
+            report.run_rules(ck, rm)
+            if ck.analysis_error is not None:
+                err = str(ck.analysis_error)
         except AnalysisError as ex:
             err = str(ex)
         viol, known, _stale = report.split_known(prop, ck.findings)
